@@ -12,6 +12,8 @@ import (
 	"math/big"
 	"math/rand"
 	"os"
+	"sort"
+	"strings"
 
 	"github.com/idena-network/idena-go/common"
 	"github.com/idena-network/idena-go/common/eventbus"
@@ -48,6 +50,65 @@ func c13sBal(s *state.StateDB, k int) string {
 		return "val -"
 	}
 	return "val " + b.String()
+}
+
+// c13sIter: range iteration of the tree behind a StateDB (IterateAccounts: the tree only, in key order), restricted to
+// the modelled balance keys (addresses 0x77..): "items k=v,k=v".  The typed IterateOverAccounts (object cache first, in
+// map order, then the tree entries that are not cached; a deleted account shows as a cached empty one) must yield the
+// same set of non-empty accounts.
+func c13sIter(s *state.StateDB) string {
+	var parts []string
+	raw := map[int]string{}
+	s.IterateAccounts(func(key []byte, value []byte) bool {
+		if key == nil {
+			return true
+		}
+		a := state.StateDbKeys.AddressKeyToAddress(key)
+		if a[0] != 0x77 {
+			return false
+		}
+		var acc state.Account
+		b := "undecodable"
+		if err := acc.FromBytes(value); err == nil {
+			b = "0"
+			if acc.Balance != nil {
+				b = acc.Balance.String()
+			}
+		}
+		k := int(a[1])<<8 | int(a[2])
+		parts = append(parts, fmt.Sprintf("%d=%s", k, b))
+		raw[k] = b
+		return false
+	})
+	typed := map[int]string{}
+	s.IterateOverAccounts(func(a common.Address, acc state.Account) {
+		if a[0] != 0x77 || acc.Balance == nil || acc.Balance.Sign() == 0 {
+			return
+		}
+		k := int(a[1])<<8 | int(a[2])
+		if _, dup := typed[k]; dup {
+			typed[k] = "twice"
+			return
+		}
+		typed[k] = acc.Balance.String()
+	})
+	if c13sWant(typed) != c13sWant(raw) {
+		parts = append(parts, "typed-iteration-differs:"+strings.ReplaceAll(c13sWant(typed), " ", "_"))
+	}
+	return "items " + strings.Join(parts, ",")
+}
+
+func c13sWant(m map[int]string) string {
+	var ks []int
+	for k := range m {
+		ks = append(ks, k)
+	}
+	sort.Ints(ks)
+	var parts []string
+	for _, k := range ks {
+		parts = append(parts, fmt.Sprintf("%d=%s", k, m[k]))
+	}
+	return "items " + strings.Join(parts, ",")
 }
 
 // c13sRichWrites touches every kind of state object through the exported setters: identities, stakes, contract
@@ -157,6 +218,52 @@ func c13sRun(c *hx.Ctx, cs c13sCase) error {
 			snap[k] = v
 		}
 		committed[height] = snap
+		// range iteration right after the commit, then (often) an abandoned block attempt: writes that reach the working
+		// tree, iteration over the dirty tree, Reset — nothing of it may stay visible to point reads or range iteration
+		it0 := c13sIter(app.State)
+		c.Line("citer", it0)
+		if it0 != c13sWant(snap) {
+			fail("C13:iteration-differs-from-committed", fmt.Sprintf("height %d: %s, committed %s", height, it0, c13sWant(snap)))
+		}
+		if r.Intn(2) == 0 {
+			for j, n := 0, 1+r.Intn(4); j < n; j++ {
+				k := r.Intn(nKeys)
+				if r.Intn(4) == 0 {
+					app.State.SetBalance(c13sAddr(k), big.NewInt(0))
+					c.Line(fmt.Sprintf("cset %d -", k), "ok")
+				} else {
+					v := int64(7000 + r.Intn(1000))
+					app.State.SetBalance(c13sAddr(k), big.NewInt(v))
+					c.Line(fmt.Sprintf("cset %d %d", k, v), "ok")
+				}
+			}
+			if r.Intn(3) == 0 {
+				c13sRichWrites(app, rand.New(rand.NewSource(r.Int63())), height+3)
+			}
+			switch r.Intn(3) {
+			case 0:
+				app.State.Precommit(true)
+				c.Hit("attempt:state-precommit")
+			case 1:
+				app.Precommit()
+				c.Hit("attempt:appstate-precommit")
+			default:
+				c.Hit("attempt:cache-only")
+			}
+			c13sIter(app.State) // iterate the dirty tree (not compared: it legitimately shows the attempt)
+			app.Reset()
+			c.Line("reset", "ok")
+			it1 := c13sIter(app.State)
+			c.Line("citer", it1)
+			if it1 != c13sWant(snap) {
+				fail("C13:abandoned-writes-visible-after-reset", fmt.Sprintf("height %d: iteration after Reset %s, committed %s", height, it1, c13sWant(snap)))
+			}
+			k := r.Intn(nKeys)
+			c.Line(fmt.Sprintf("cget %d", k), c13sBal(app.State, k))
+			if app.State.Root() != twin.State.Root() || app.IdentityState.Root() != twin.IdentityState.Root() {
+				fail("C13:abandoned-writes-left-trace", fmt.Sprintf("height %d: roots differ from the twin after Reset", height))
+			}
+		}
 		root0, ver0, db0 := app.State.Root(), app.State.Version(), c13sDbHash(db)
 		// speculative work on a view of a retained (or not retained) height
 		if r.Intn(2) == 0 {
@@ -199,6 +306,7 @@ func c13sRun(c *hx.Ctx, cs c13sCase) error {
 					} else {
 						view.Precommit()
 					}
+					c.Line("viter", c13sIter(view.State)) // the view's writes are in its tree now
 					c.Hit("views")
 				}
 			}
